@@ -1,3 +1,90 @@
 // Kani harnesses for src/types/packet.rs (child module: sees private items). See /verif/DESIGN.md 8.1 Engine K.
 #![allow(dead_code, unused_imports)]
 use super::*;
+
+/// RFC 9580 4.2.1 (OpenPGP format packet length), written from the RFC text, independent of the
+/// code under test.  `inp` is the octet string that follows the type octet.
+/// Result: None = the encoding is truncated; Some((is_partial, length, octets_consumed)).
+fn rfc9580_4_2_1(inp: &[u8]) -> Option<(bool, u32, usize)> {
+    if inp.len() < 1 {
+        return None;
+    }
+    let o1 = inp[0] as u32;
+    if o1 < 192 {
+        // 4.2.1.1 one-octet lengths: bodyLen = 1st_octet
+        Some((false, o1, 1))
+    } else if o1 <= 223 {
+        // 4.2.1.2 two-octet lengths: bodyLen = ((1st_octet - 192) << 8) + (2nd_octet) + 192
+        if inp.len() < 2 {
+            return None;
+        }
+        Some((false, ((o1 - 192) << 8) + (inp[1] as u32) + 192, 2))
+    } else if o1 < 255 {
+        // 4.2.1.4 partial body lengths: partialBodyLen = 1 << (1st_octet & 0x1F)
+        Some((true, 1u32 << (o1 & 0x1F), 1))
+    } else {
+        // 4.2.1.3 five-octet lengths: 0xFF, then a four-octet big-endian scalar
+        if inp.len() < 5 {
+            return None;
+        }
+        let l = ((inp[1] as u32) << 24) | ((inp[2] as u32) << 16) | ((inp[3] as u32) << 8) | (inp[4] as u32);
+        Some((false, l, 5))
+    }
+}
+
+/// K01 (C17/C05/C04): `PacketLength::try_from_reader` agrees with RFC 9580 4.2.1 on EVERY octet
+/// string of length 0..=5 (the function never looks past the 5th octet, so this is every input):
+/// kind (fixed / partial), value, number of octets consumed, and Err exactly on truncation.
+/// Never yields `Indeterminate`.  Complete: loops of `read_arr` fully unwound.
+#[kani::proof]
+#[kani::unwind(6)]
+fn k01_packet_length_decode_all_5_octet_inputs() {
+    let bytes: [u8; 5] = kani::any();
+    let n: usize = kani::any();
+    kani::assume(n <= 5); // input shaping: truncated inputs are part of the domain
+    let mut rd: &[u8] = &bytes[..n];
+    let r = PacketLength::try_from_reader(&mut rd);
+    let consumed = n - rd.len();
+    match rfc9580_4_2_1(&bytes[..n]) {
+        None => assert!(r.is_err(), "truncated length accepted"),
+        Some((partial, len, used)) => {
+            match r {
+                Ok(PacketLength::Fixed(l)) => {
+                    assert!(!partial, "partial length octet decoded as fixed");
+                    assert!(l == len, "fixed length value differs from RFC 9580 4.2.1");
+                }
+                Ok(PacketLength::Partial(l)) => {
+                    assert!(partial, "fixed length octet decoded as partial");
+                    assert!(l == len, "partial length differs from 1 << (o & 0x1F)");
+                }
+                Ok(PacketLength::Indeterminate) => assert!(false, "new format has no indeterminate length"),
+                Err(_) => assert!(false, "well-formed length rejected"),
+            }
+            assert!(consumed == used, "number of octets consumed differs from RFC 9580 4.2.1");
+        }
+    }
+    kani::cover!(n == 5 && bytes[0] == 255 && r.is_ok());
+    kani::cover!(n == 2 && bytes[0] == 223 && bytes[1] == 255 && r.is_ok());
+    kani::cover!(n >= 1 && bytes[0] == 254 && r.is_ok());
+    kani::cover!(n == 4 && bytes[0] == 255 && r.is_err());
+}
+
+/// K01: `fixed_encoding_len` over all u32: 1 octet below 192, 2 octets up to 8383, else 5; and the
+/// thresholds are the ones of the decode: the largest two-octet value is
+/// ((223 - 192) << 8) + 255 + 192 == 8383.
+#[kani::proof]
+fn k01_fixed_encoding_len_all_u32() {
+    let len: u32 = kani::any();
+    let n = PacketLength::fixed_encoding_len(len);
+    let max_two: u32 = ((223 - 192) << 8) + 255 + 192;
+    let expect = if len <= 191 {
+        1
+    } else if len <= max_two {
+        2
+    } else {
+        5
+    };
+    assert!(n == expect, "fixed_encoding_len differs from RFC 9580 4.2.1 thresholds");
+    kani::cover!(len == 8383 && n == 2);
+    kani::cover!(len == 8384 && n == 5);
+}
